@@ -94,7 +94,7 @@ fn list(name: &'static str, items: BoxedStrategy<Vec<Value>>) -> VS {
 fn collection(inner: VS) -> VS {
     prop_oneof![
         4 => vec(inner.clone(), 0..=4).prop_map(Value::Array),
-        3 => select(vec!["xs", "a", "b", "c"]).prop_map(|k| json!({"var": k})),
+        3 => select(vec!["xs", "a", "b", "c", "a.b", "x\\y", "xs.0", "a.xs"]).prop_map(|k| json!({"var": k})),
         2 => vec(inner.clone(), 0..=3).prop_map(|v| json!({"merge": v})),
         1 => Just(Value::Null),
         1 => inner,
